@@ -814,6 +814,11 @@ class SendProduceReqHandler(BaseHandler):
             await self._client._maybe_wait_metadata()
 
     def handle_response(self, response):
+        fatal_error = None
+        txn_manager = self._sender._txn_manager
+        is_transactional = (
+            txn_manager is not None and txn_manager.transactional_id is not None
+        )
         for topic, partitions in response.topics:
             for partition_info in partitions:
                 global_error = None
@@ -871,6 +876,13 @@ class SendProduceReqHandler(BaseHandler):
                     else:
                         exc = error()
                     batch.failure(exception=exc)
+                    if is_transactional and isinstance(
+                        exc, ProducerFenced | OutOfOrderSequenceNumber
+                    ):
+                        # Fencing and sequence violations are fatal for a
+                        # transactional producer, same as when they are
+                        # reported by the transaction coordinator.
+                        fatal_error = exc
                 else:
                     log.warning(
                         "Got error produce response on topic-partition"
@@ -882,6 +894,8 @@ class SendProduceReqHandler(BaseHandler):
                     if getattr(error, "invalid_metadata", False):
                         self._client.force_metadata_update()
                     self._to_reenqueue.append(batch)
+        if fatal_error is not None:
+            raise fatal_error
 
     def handle_error(self):
         return self._default_backoff
